@@ -6,7 +6,9 @@ Reading. A duplex provider denotes a finite set of naturals (strictly ascending 
 `recv.Op(operand)` is `Spec.binop op recv operand`, whatever the implementation pairing. Native roaring operations are
 assumed exact (trusted base; `native_ops_set` shows that the functions standing for them ARE ∪ ∩ \ △ on sets).
 Proved here about DAWGS' own code: the fallbacks taken for an operand that is not the receiver's concrete type, the
-wrappers (lock; delegate; unlock — tied to lock.go by the regenerated table), and the lock-level LTS of the wrappers.
+wrappers (snapshot a wrapper operand under its own lock; then lock; delegate; unlock — tied to lock.go by the
+regenerated table), and the lock-level LTS of the wrappers. Theorems named `…_old` are about lock.go before
+hooks/C13-fix2.patch (a wrapper operand was read while the receiver's lock was held).
 -/
 import Dawgs.Proofs.C13
 import Dawgs.Proofs.C13Lts
@@ -119,22 +121,63 @@ theorem clone_independent (p q : Prov) (h : p.clone = some q) :
     cases h
     exact ⟨rfl, rfl, rfl, rfl, by simpa using hl⟩
 
-/-- A wrapper whose mutex is free gives the same answers and ends with the same content as the bitmap it wraps, for
-every binary operation with every operand and for every other method, and has released its mutex whenever the call
-returned; and the wrapper methods of lock.go ARE `lock; defer unlock; delegate` (regenerated table, by `decide`). -/
-theorem wrapper_same_answers (fixed : Bool) (p : Prov) (hp : p.locked = false) :
-    (∀ op o,
-      ({ p with wrapped := true }.binop fixed op o).2 = ({ p with wrapped := false }.binop fixed op o).2 ∧
-      ({ p with wrapped := true }.binop fixed op o).1.set = ({ p with wrapped := false }.binop fixed op o).1.set ∧
-      (({ p with wrapped := true }.binop fixed op o).2 = .ok → ({ p with wrapped := true }.binop fixed op o).1.locked = false)) ∧
+/-- operands a caller can actually pass in the live protocol (no mutex is ever held forever): canonical sets -/
+def OperandOk : Operand → Prop
+  | .bitmap o => Sorted o
+  | .wrapper locked o => locked = false ∧ Sorted o
+  | .selfWrapper => False
+  | .nonDuplex => True
+
+/-- Live protocol (snapshot a wrapper operand, then lock; delegate; unlock — with the F1 repair): a wrapper whose
+mutex is free gives the same answer and ends with the same content as the bitmap it wraps, for every binary
+operation with every operand of either implementation and for every other method; every call returns and has
+released its mutex; `x.Op(x)` on a wrapper returns and is `Op` applied to the set and itself. And the wrapper
+methods of lock.go ARE that protocol (regenerated table, by `decide`). -/
+theorem wrapper_same_answers (p : Prov) (hp : p.locked = false) (hs : Sorted p.set) :
+    (∀ op o, OperandOk o →
+      ({ p with wrapped := true }.binop true true op o).2 = .ok ∧
+      ({ p with wrapped := false }.binop true true op o).2 = .ok ∧
+      ({ p with wrapped := true }.binop true true op o).1.set = ({ p with wrapped := false }.binop true true op o).1.set ∧
+      ({ p with wrapped := true }.binop true true op o).1.locked = false) ∧
+    (∀ op, { p with wrapped := true }.binop true true op .selfWrapper =
+      ({ p with wrapped := true, set := Spec.binop op p.set p.set }, .ok)) ∧
     (∀ {α : Type} (f : S → α), { p with wrapped := true }.guard f = { p with wrapped := false }.guard f) ∧
-    Facts.wrappersOk Generated.C13.wrapperMethods = true := by
-  refine ⟨?_, ?_, by decide⟩
+    Facts.wrappersOk liveSnapshot Generated.C13.wrapperMethods Generated.C13.snapshotCases Generated.C13.snapshotDefault = true := by
+  refine ⟨?_, ?_, ?_, by decide⟩
+  · intro op o ho
+    cases o with
+    | bitmap o => simp [Prov.binop, snapshotOperand, bitmapBinop, hp]
+    | wrapper locked o =>
+      obtain ⟨rfl, hso⟩ := ho
+      have hfb : fallbackOp true p.width op p.set o = nativeOp op p.set o := by
+        cases op
+        · exact orFallback_eq hs hso
+        · exact andFallbackFixed_eq hs hso
+        · exact andNotFallbackFixed_eq hs hso
+        · exact xorFallback_eq hso
+      simp [Prov.binop, snapshotOperand, bitmapBinop, hp, hfb]
+    | selfWrapper => exact absurd ho id
+    | nonDuplex => simp [Prov.binop, snapshotOperand, bitmapBinop, hp]
+  · intro op
+    have : nativeOp op = Spec.binop op := by cases op <;> rfl
+    simp [Prov.binop, snapshotOperand, bitmapBinop, hp, this]
+  · intro α f
+    simp [Prov.guard, hp]
+
+/-- The protocol of lock.go before hooks/C13-fix2.patch (`snap = false`): same answers as the wrapped bitmap as long
+as the call returns at all; it does not return for a self operand (see `wrapper_deadlock_free_old_refuted_self`). -/
+theorem wrapper_same_answers_old (fixed : Bool) (p : Prov) (hp : p.locked = false) :
+    (∀ op o,
+      ({ p with wrapped := true }.binop fixed false op o).2 = ({ p with wrapped := false }.binop fixed false op o).2 ∧
+      ({ p with wrapped := true }.binop fixed false op o).1.set = ({ p with wrapped := false }.binop fixed false op o).1.set ∧
+      (({ p with wrapped := true }.binop fixed false op o).2 = .ok → ({ p with wrapped := true }.binop fixed false op o).1.locked = false)) ∧
+    (∀ op, callsOperand op p.set = true → ({ p with wrapped := true }.binop fixed false op .selfWrapper).2 = .deadlock) := by
+  refine ⟨?_, ?_⟩
   · intro op o
     simp only [Prov.binop, hp, Bool.and_false, Bool.false_eq_true, if_false]
     cases bitmapBinop fixed p.width op p.set o <;> simp [hp]
-  · intro α f
-    simp [Prov.guard, hp]
+  · intro op hc
+    simp [Prov.binop, hp, bitmapBinop, hc]
 
 /-- The type switches of roaring32.go/roaring64.go have exactly the shape the model transcribes (own concrete type →
 native call, any other Duplex → the fallback loop with these calls, no default; iterate-while-remove present exactly
@@ -148,62 +191,113 @@ theorem type_switch_as_modelled :
 
 /-! ### the lock-level LTS -/
 
-/-- a call of method `name` on wrapper `w` with a non-wrapper operand; whether the body holds the lock is read from
-the regenerated table of lock.go -/
-def tableCall {D R : Type} (w : Nat) (m : String × (D → D × R)) : Call D R :=
-  { recv := w, operand := none, cbs := 0, locked := Facts.lockedIn Generated.C13.wrapperMethods m.1, opLocked := true,
-    f := fun d _ => m.2 d }
+/-- one call of a caller's program: method `name` of the duplex wrapper with mutex `recv`; `operand = some o` when
+the operand is itself the wrapper with mutex `o` (possibly `o = recv`) -/
+structure Item (D R : Type) where
+  name : String
+  recv : Nat
+  operand : Option Nat
+  f : D → D → D × R
 
-/-- Linearizability of one wrapper: for all programs of callers of wrapper `w` (any methods of the interface, operands
-not wrappers) and every state reachable under ANY interleaving of their atomic steps, the log of write steps is a
-sequential execution — every call returned what it returns when the calls run one after the other in log order, the
-wrapper's data is the result of that sequential run, the log respects each thread's program order, and at most one
-thread is inside a method body. -/
-theorem wrapper_linearizable_single {D R : Type} (w : Nat) (d0 : Nat → D) (dflt : D)
-    (progs : Nat → List (String × (D → D × R)))
-    (hnames : ∀ t, ∀ m ∈ progs t, m.1 ∈ Facts.duplexMethods)
-    (s : State D R) (hr : Reach (init d0 dflt (fun t => (progs t).map (tableCall w))) s) :
-    Lin (d0 w) s.log (s.data w) ∧
-    (∀ t, (mine t s.log).map (·.call) ++ pending s t = (progs t).map (tableCall w)) ∧
-    (∀ t, (s.th t).res = (mine t s.log).map (·.r)) ∧
-    (∀ t t', inCS s t → inCS s t' → t = t') := by
+/-- only the four binary operations take an operand -/
+def Item.WellFormed {D R : Type} (it : Item D R) : Prop :=
+  it.name ∈ Facts.duplexMethods ∧ (it.operand ≠ none → it.name ∈ Facts.binaryMethods)
+
+/-- the LTS call of an item: whether the body holds the lock, whether a wrapper operand is snapshotted before the
+lock is taken, and whether the snapshot is taken under the operand's lock are READ FROM THE REGENERATED TABLE of
+lock.go -/
+def tableCall {D R : Type} (it : Item D R) : Call D R :=
+  { recv := it.recv, operand := it.operand, cbs := 1,
+    locked := Facts.lockedIn Generated.C13.wrapperMethods it.name,
+    opLocked := Facts.snapshotLocks Generated.C13.snapshotCases,
+    snapshot := Facts.snapshotsIn Generated.C13.wrapperMethods it.name,
+    f := it.f }
+
+theorem tableCall_good {D R : Type} (it : Item D R) (h : it.WellFormed) : Good (tableCall it) := by
   have hall : Facts.duplexMethods.all (Facts.lockedIn Generated.C13.wrapperMethods) = true := by decide
-  have hsingle : ∀ t, ∀ c ∈ (progs t).map (tableCall (D := D) (R := R) w), Single w c := by
-    intro t c hc
-    obtain ⟨m, hm, rfl⟩ := List.mem_map.1 hc
-    exact ⟨rfl, rfl, List.all_eq_true.1 hall m.1 (hnames t m hm)⟩
-  have inv := linInv_reach hsingle hr
-  exact ⟨inv.lin, inv.order, inv.res, fun t t' h h' => mutex_of_holds inv.holds h h'⟩
+  have hbin : Facts.binaryMethods.all (Facts.snapshotsIn Generated.C13.wrapperMethods) = true := by decide
+  have hsnap : Facts.snapshotLocks Generated.C13.snapshotCases = true := by decide
+  exact ⟨fun ho => List.all_eq_true.1 hbin it.name (h.2 ho), List.all_eq_true.1 hall it.name h.1, hsnap⟩
 
-/-- full-strength deadlock freedom: arbitrary programs of calls whose operands may be wrappers (every body holds its
-lock, the operand's `Each`/`Contains` holds the operand's) never reach a state where somebody has work and nobody
-can move -/
-def WrapperDeadlockFree : Prop :=
+/-- Linearizability of the wrappers, arbitrary operands (other wrappers, the receiver itself): for all programs of
+calls of the interface on any number of wrappers and every state reachable under ANY interleaving of their atomic
+steps,
+* per wrapper, the log of write steps on it is a sequential execution: every call returned what it returns when the
+  calls on that wrapper run one after the other in log order on the operand snapshots they recorded, and the wrapper's
+  data is the result of that run (each operation is atomic on its receiver);
+* the log respects every thread's program order and holds exactly its returned results;
+* a wrapper is used by at most one thread at a time — bodies on it and snapshot reads of it exclude one another —
+  and while a thread reads an operand its snapshot IS the operand's data (the operand is read atomically). -/
+theorem wrapper_linearizable {D R : Type} (d0 : Nat → D) (dflt : D) (progs : Nat → List (Item D R))
+    (hwf : ∀ t, ∀ it ∈ progs t, it.WellFormed)
+    (s : State D R) (hr : Reach (init d0 dflt (fun t => (progs t).map tableCall)) s) :
+    (∀ m, Lin (d0 m) (onRecv m s.log) (s.data m)) ∧
+    (∀ t, (mine t s.log).map (·.call) ++ pending s t = (progs t).map tableCall) ∧
+    (∀ t, (s.th t).res = (mine t s.log).map (·.r)) ∧
+    (∀ t t' m, Uses s t m → Uses s t' m → t = t') ∧
+    (∀ t c rest o, (s.th t).todo = c :: rest → (s.th t).pc = .snapHeld → c.operand = some o → (s.th t).opLoc = s.data o) := by
+  have hgood : ∀ t, ∀ c ∈ (progs t).map (tableCall (D := D) (R := R)), Good c := by
+    intro t c hc
+    obtain ⟨it, hit, rfl⟩ := List.mem_map.1 hc
+    exact tableCall_good it (hwf t it hit)
+  have inv := linInv_reach hgood hr
+  refine ⟨inv.lin, inv.order, inv.res, ?_, ?_⟩
+  · intro t t' m h h'
+    have := uses_holder inv h; have := uses_holder inv h'; simp_all
+  · intro t c rest o h1 h2 h3
+    obtain ⟨o', ho1, _, ho3⟩ := inv.snap t c rest h1 h2
+    rw [h3] at ho1; cases ho1; exact ho3
+
+/-- deadlock freedom for ARBITRARY wrapper operands, parameterised by the protocol: programs of calls whose bodies
+hold their lock, whose operand reads hold the operand's lock, and which all follow protocol `snapshot`, never reach
+a state where somebody has work and nobody can move -/
+def WrapperDeadlockFree (snapshot : Bool) : Prop :=
   ∀ (n : Nat) (progs : Nat → List (Call Unit Unit)), (∀ t, n ≤ t → progs t = []) →
-    (∀ t, ∀ c ∈ progs t, c.locked = true ∧ c.opLocked = true) →
+    (∀ t, ∀ c ∈ progs t, c.locked = true ∧ c.opLocked = true ∧ c.snapshot = snapshot) →
     ∀ s, Reach (unitInit progs) s → deadlocked n s = false
 
-/-- F12 (self operand): false. `x.Or(x)` on a wrapper: after `Lock()` the fallback calls `x.Each`, which calls
-`Lock()` on the mutex the caller holds — and the call can never complete, in every schedule. -/
-theorem wrapper_deadlock_free_refuted_self :
-    ¬ WrapperDeadlockFree ∧ (∀ s, Reach (unitInit selfProgs) s → (s.th 0).todo ≠ []) := by
+/-- The live protocol is deadlock free for arbitrary operands — other wrappers, the receiver itself, any number of
+wrappers and threads, any data: a thread never waits for a lock while it holds one, so in every reachable state
+with an unfinished thread some thread has an enabled step. (Holds whatever `locked`/`opLocked` are.) -/
+theorem wrapper_deadlock_free_any {D R : Type} (n : Nat) (d0 : Nat → D) (dflt : D) (progs : Nat → List (Call D R))
+    (hidle : ∀ t, n ≤ t → progs t = []) (hlive : ∀ t, ∀ c ∈ progs t, c.operand ≠ none → c.snapshot = true)
+    (s : State D R) (hr : Reach (init d0 dflt progs) s) : deadlocked n s = false :=
+  not_deadlocked_of_inv (dfInv_reach hlive hidle hr)
+
+theorem wrapper_deadlock_free : WrapperDeadlockFree true :=
+  fun n progs hidle h s hr => wrapper_deadlock_free_any n _ _ progs hidle (fun t c hc _ => (h t c hc).2.2) s hr
+
+/-- … and lock.go follows it: programs built from the regenerated table are deadlock free -/
+theorem wrapper_deadlock_free_live {D R : Type} (n : Nat) (d0 : Nat → D) (dflt : D) (progs : Nat → List (Item D R))
+    (hidle : ∀ t, n ≤ t → progs t = []) (hwf : ∀ t, ∀ it ∈ progs t, it.WellFormed)
+    (s : State D R) (hr : Reach (init d0 dflt (fun t => (progs t).map tableCall)) s) : deadlocked n s = false := by
+  refine wrapper_deadlock_free_any n d0 dflt _ (fun t ht => by simp [hidle t ht]) ?_ s hr
+  intro t c hc
+  obtain ⟨it, hit, rfl⟩ := List.mem_map.1 hc
+  exact (tableCall_good it (hwf t it hit)).1
+
+/-- F12 (self operand), protocol before hooks/C13-fix2.patch: false. `x.Or(x)` on a wrapper: after `Lock()` the
+fallback calls `x.Each`, which calls `Lock()` on the mutex the caller holds — the call can never complete, in every
+schedule. -/
+theorem wrapper_deadlock_free_old_refuted_self :
+    ¬ WrapperDeadlockFree false ∧ (∀ s, Reach (unitInit (selfProgs false)) s → (s.th 0).todo ≠ []) := by
   constructor
   · intro h
-    have hw : (runSched (unitInit selfProgs) [0]).map (deadlocked 1) = some true := by decide
-    cases hrun : runSched (unitInit selfProgs) [0] with
+    have hw : (runSched (unitInit (selfProgs false)) [0]).map (deadlocked 1) = some true := by decide
+    cases hrun : runSched (unitInit (selfProgs false)) [0] with
     | none => rw [hrun] at hw; cases hw
     | some s =>
       rw [hrun] at hw
       have hd : deadlocked 1 s = true := by simpa using hw
-      have := h 1 selfProgs (fun t ht => by match t, ht with | t+1, _ => rfl)
+      have := h 1 (selfProgs false) (fun t ht => by match t, ht with | t+1, _ => rfl)
         (fun t c hc => by
           match t, hc with
-          | 0, hc => simp [selfProgs] at hc; subst hc; exact ⟨rfl, rfl⟩
+          | 0, hc => simp [selfProgs] at hc; subst hc; exact ⟨rfl, rfl, rfl⟩
           | t+1, hc => simp [selfProgs] at hc)
         s (reach_of_runSched [0] Reach.refl hrun)
       rw [this] at hd; cases hd
   · intro s hr
-    have inv : (s.th 0).todo = selfProgs 0 ∧ (∀ t, t ≠ 0 → (s.th t).todo = []) ∧
+    have inv : (s.th 0).todo = selfProgs false 0 ∧ (∀ t, t ≠ 0 → (s.th t).todo = []) ∧
         (((s.th 0).pc = .start ∧ s.holder 0 = none) ∨ ((s.th 0).pc = .held 1 ∧ s.holder 0 = some 0)) := by
       induction hr with
       | refl => exact ⟨rfl, fun t ht => by match t, ht with | t+1, _ => rfl, Or.inl ⟨rfl, rfl⟩⟩
@@ -214,7 +308,7 @@ theorem wrapper_deadlock_free_refuted_self :
           unfold step at hs
           simp only [h1, selfProgs] at hs
           rcases h3 with ⟨hpc, hh⟩ | ⟨hpc, hh⟩
-          · simp only [hpc, hh, if_true] at hs
+          · simp only [hpc, Call.snapTarget, acquireRecv, hh, if_true] at hs
             have hs := Option.some.inj hs
             subst hs
             refine ⟨by simp [upd_same, h1, selfProgs], fun t ht => by simp [upd_other _ _ ht, h2 t ht], Or.inr ⟨by simp [upd_same, Call.rounds], by simp [upd_same]⟩⟩
@@ -225,26 +319,25 @@ theorem wrapper_deadlock_free_refuted_self :
           cases hs
     rw [inv.1]; simp [selfProgs]
 
-/-- F12 (ABBA): `a.Or(b) ∥ b.Or(a)` on two wrappers reaches a state where each thread holds its receiver's mutex and
-waits for the other's. -/
-theorem wrapper_deadlock_free_refuted_abba :
-    ∃ s, Reach (unitInit (abbaProgs 1 1)) s ∧ deadlocked 2 s = true ∧
+/-- F12 (ABBA), protocol before hooks/C13-fix2.patch: `a.Or(b) ∥ b.Or(a)` on two wrappers reaches a state where each
+thread holds its receiver's mutex and waits for the other's. -/
+theorem wrapper_deadlock_free_old_refuted_abba :
+    ∃ s, Reach (unitInit (abbaProgs false 1 1)) s ∧ deadlocked 2 s = true ∧
       s.holder 0 = some 0 ∧ s.holder 1 = some 1 := by
-  have hw : (runSched (unitInit (abbaProgs 1 1)) [0, 1]).map
+  have hw : (runSched (unitInit (abbaProgs false 1 1)) [0, 1]).map
       (fun s => deadlocked 2 s && s.holder 0 == some 0 && s.holder 1 == some 1) = some true := by decide
-  cases hrun : runSched (unitInit (abbaProgs 1 1)) [0, 1] with
+  cases hrun : runSched (unitInit (abbaProgs false 1 1)) [0, 1] with
   | none => rw [hrun] at hw; cases hw
   | some s =>
     rw [hrun] at hw
     simp only [Option.map_some, Option.some.injEq, Bool.and_eq_true, beq_iff_eq] at hw
     exact ⟨s, reach_of_runSched [0, 1] Reach.refl hrun, hw.1.1, hw.1.2, hw.2⟩
 
-/-- what holds today: when no operand is a wrapper (whatever the methods, however many wrappers and threads, locked
-or not), no reachable state is deadlocked -/
-theorem wrapper_deadlock_free_partial {D R : Type} (n : Nat) (d0 : Nat → D) (dflt : D) (progs : Nat → List (Call D R))
+/-- what held for the old protocol: no deadlock when no operand is a wrapper -/
+theorem wrapper_deadlock_free_old_partial {D R : Type} (n : Nat) (d0 : Nat → D) (dflt : D) (progs : Nat → List (Call D R))
     (hidle : ∀ t, n ≤ t → progs t = []) (hops : ∀ t, ∀ c ∈ progs t, c.operand = none)
     (s : State D R) (hr : Reach (init d0 dflt progs) s) : deadlocked n s = false :=
-  not_deadlocked_of_inv (dlInv_reach hops hidle hr)
+  wrapper_deadlock_free_any n d0 dflt progs hidle (fun t c hc ho => absurd (hops t c hc) ho) s hr
 
 /-! ### the property at full strength -/
 
@@ -254,14 +347,17 @@ def C13_seq (fixed : Bool) : Prop :=
   ∀ (w : Width) (op : BinOp) (r o : S), Sorted r → Sorted o → fallbackOp fixed w op r o = Spec.binop op r o
 
 /-- C13 at the strength of properties.jsonl for DAWGS' own code (native roaring operations assumed exact): exact set
-algebra on every pairing, and wrappers that give the same answers under concurrent use — which needs every call to
-return, i.e. deadlock freedom for arbitrary (also wrapped) operands. -/
-def C13_full : Prop :=
-  C13_seq liveFixed ∧
-  (∀ (D R : Type) (w : Nat) (d0 : Nat → D) (dflt : D) (progs : Nat → List (String × (D → D × R))),
-    (∀ t, ∀ m ∈ progs t, m.1 ∈ Facts.duplexMethods) →
-    ∀ s, Reach (init d0 dflt (fun t => (progs t).map (tableCall w))) s → Lin (d0 w) s.log (s.data w)) ∧
-  WrapperDeadlockFree
+algebra on every pairing, and wrappers that give the same answers under concurrent use — linearizable, and every
+call returns (deadlock freedom for arbitrary, also wrapped, operands). `fixed`/`snapshot` select the code version. -/
+def C13_fullFor (fixed snapshot : Bool) : Prop :=
+  C13_seq fixed ∧
+  (∀ (D R : Type) (d0 : Nat → D) (dflt : D) (progs : Nat → List (Item D R)),
+    (∀ t, ∀ it ∈ progs t, it.WellFormed) →
+    ∀ s, Reach (init d0 dflt (fun t => (progs t).map tableCall)) s → ∀ m, Lin (d0 m) (onRecv m s.log) (s.data m)) ∧
+  WrapperDeadlockFree snapshot
+
+/-- the live code: /repo with hooks/C13-fix.patch (committed) and hooks/C13-fix2.patch -/
+def C13_full : Prop := C13_fullFor liveFixed liveSnapshot
 
 /-- with hooks/C13-fix.patch the sequential part holds for all widths, operations and sets -/
 theorem c13_seq_fixed : C13_seq true := by
@@ -272,12 +368,18 @@ theorem c13_seq_fixed : C13_seq true := by
   · exact andNotFallbackFixed_eq hr ho
   · exact xorFallback_eq ho
 
-/-- the sequential part is false of the code as it is (F1) -/
+/-- the sequential part was false of the code before hooks/C13-fix.patch (F1) -/
 theorem c13_seq_current_refuted : ¬ C13_seq false := fun h =>
   and_fallback_correct_refuted.1 (fun r o hr ho => h .w32 .and r o hr ho)
 
-/-- C13 is false of the current code: wrappers deadlock on wrapper operands (F12) — independent of the F1 repair -/
-theorem c13_full_refuted : ¬ C13_full := fun h => wrapper_deadlock_free_refuted_self.1 h.2.2
+/-- C13 holds of the live code -/
+theorem c13_full : C13_full :=
+  ⟨c13_seq_fixed, fun D R d0 dflt progs hwf s hr => (wrapper_linearizable d0 dflt progs hwf s hr).1, wrapper_deadlock_free⟩
+
+/-- … and was false before each of the two repairs: wrappers deadlocked on wrapper operands (F12), the And/AndNot
+fallbacks lost elements (F1) -/
+theorem c13_full_old_refuted : ¬ C13_fullFor true false ∧ ¬ C13_fullFor false true :=
+  ⟨fun h => wrapper_deadlock_free_old_refuted_self.1 h.2.2, fun h => c13_seq_current_refuted h.1⟩
 
 /-! ### non-vacuity -/
 
@@ -298,20 +400,38 @@ example : Spec.acceptsTrace [0, 3, 5, 7] [(.bin .and [], .unit, [3])] = false :=
 example : Spec.acceptsTrace [1] [(.checkedAdd 1, .bool true, [1])] = false := by decide
 -- linearizability has teeth: with a method body that does NOT take the lock, two increments can lose an update
 example :
-    let inc : Call Nat Nat := { recv := 0, operand := none, cbs := 0, locked := false, opLocked := true, f := fun d _ => (d + 1, d) }
+    let inc : Call Nat Nat := { recv := 0, operand := none, cbs := 0, locked := false, opLocked := true, snapshot := true, f := fun d _ => (d + 1, d) }
     let progs : Nat → List (Call Nat Nat) := fun t => if t < 2 then [inc] else []
     (runSched (init (fun _ => 0) 0 progs) [0, 1, 0, 1, 0, 1, 0, 1]).map (fun s => (s.data 0, (s.th 0).res, (s.th 1).res)) = some (1, [0], [0]) := by
   decide
 -- and a locked body cannot be interleaved that way: the second thread is blocked at `Lock()`
 example :
-    let inc : Call Nat Nat := { recv := 0, operand := none, cbs := 0, locked := true, opLocked := true, f := fun d _ => (d + 1, d) }
+    let inc : Call Nat Nat := { recv := 0, operand := none, cbs := 0, locked := true, opLocked := true, snapshot := true, f := fun d _ => (d + 1, d) }
     let progs : Nat → List (Call Nat Nat) := fun t => if t < 2 then [inc] else []
     ((runSched (init (fun _ => 0) 0 progs) [0, 1]).isNone &&
      ((runSched (init (fun _ => 0) 0 progs) [0, 0, 0, 0, 1, 1, 1, 1]).map (fun s => (s.data 0, (s.th 0).res, (s.th 1).res)) == some (2, [0], [1]))) = true := by
   decide
 -- deadlock-free partial: hypotheses satisfiable with two wrappers, two threads
 example : deadlocked 2 ((runSched (init (fun _ => ()) () (fun t => if t < 2 then
-    [({ recv := t, operand := none, cbs := 0, locked := true, opLocked := true, f := fun _ _ => ((), ()) } : Call Unit Unit)] else []))
-    [0, 1, 0, 1]).getD (unitInit selfProgs)) = false := by decide
+    [({ recv := t, operand := none, cbs := 0, locked := true, opLocked := true, snapshot := true, f := fun _ _ => ((), ()) } : Call Unit Unit)] else []))
+    [0, 1, 0, 1]).getD (unitInit (selfProgs true))) = false := by decide
+-- the live protocol on the two F12 witnesses: x.Op(x) completes; a.Op(b) ∥ b.Op(a) completes from the old ABBA prefix
+example : (runSched (unitInit (selfProgs true)) [0, 0, 0, 0, 0, 0]).map (fun s => (s.th 0).todo.isEmpty) = some true := by decide
+example : (runSched (unitInit (abbaProgs true 1 1)) [0, 1, 0, 1, 0, 0, 0, 0, 1, 1, 1, 1]).map
+    (fun s => (s.th 0).todo.isEmpty && (s.th 1).todo.isEmpty) = some true := by decide
+-- the snapshot of an operand that is being written by another thread is taken under the operand's lock: with an
+-- unlocked snapshot (`opLocked := false`) a reader can run between a writer's read and write of the operand
+example :
+    let w : Call Nat Nat := { recv := 1, operand := none, cbs := 0, locked := true, opLocked := true, snapshot := true, f := fun d _ => (d + 1, d) }
+    let m : Call Nat Nat := { recv := 0, operand := some 1, cbs := 1, locked := true, opLocked := true, snapshot := true, f := fun d o => (d + o, o) }
+    let progs : Nat → List (Call Nat Nat) := fun t => if t = 0 then [m] else if t = 1 then [w] else []
+    -- thread 1 is inside its body on wrapper 1 (holds its lock): thread 0 cannot start its snapshot
+    (runSched (init (fun _ => 0) 0 progs) [1, 1, 0]).isNone = true := by decide
+example :
+    let w : Call Nat Nat := { recv := 1, operand := none, cbs := 0, locked := true, opLocked := true, snapshot := true, f := fun d _ => (d + 1, d) }
+    let m : Call Nat Nat := { recv := 0, operand := some 1, cbs := 1, locked := true, opLocked := false, snapshot := true, f := fun d o => (d + o, o) }
+    let progs : Nat → List (Call Nat Nat) := fun t => if t = 0 then [m] else if t = 1 then [w] else []
+    -- the same schedule goes through when the snapshot does not take the operand's lock: a read in the middle of a body
+    (runSched (init (fun _ => 0) 0 progs) [1, 1, 0]).isSome = true := by decide
 
 end Dawgs.C13.Props
